@@ -56,6 +56,7 @@ impl SimFile {
                 part: None,
                 proc: self.proc,
                 op: 0,
+                lib: false,
             },
         }
     }
@@ -805,6 +806,7 @@ fn sim_ctx(sim: &Arc<Sim>, proc: usize) -> Ctx {
             part: None,
             proc,
             op: 0,
+            lib: false,
         },
     }
 }
